@@ -19,8 +19,11 @@ EXPLANATION = (
     "upper-case -> special name up to the closing '_'), hence injective on printable identifiers. M2: every subscript of a "
     "bounded array in genc.c whose index comes from a plain char carries a range proof (same rule as C07-K1). M3: in "
     "gc0InitSpecialChars the loop's upper bound and every table character used as an index are below the declared bound of "
-    "gcvIdChars/gcvIdCharc. Not decided: collisions under identifier-length truncation and hashing (probabilistic by design), "
-    "validity of split files and prototypes.")
+    "gcvIdChars/gcvIdCharc. M4 (sibling predicates): every relational comparison in genc.c between the unit's statement total "
+    "(gcvNStmts or a variable copied to/from it) and the -Csmax limit gcvSMax has the same strictness (the majority form, "
+    "that of the gc0OverSMax macro); a site that splits at total == limit while the others do not makes header placement and "
+    "naming disagree. Not decided: collisions under identifier-length truncation and hashing (probabilistic by design), "
+    "validity of the split files' contents and prototypes.")
 
 
 def mangle_table_rows(f, varname):
@@ -64,6 +67,68 @@ def check_mangle_table(rep, rule, rows, unit, table):
     if ord("_") not in seen_c:
         rep.violation(rule, "row:'_'", "%s (%s)" % (unit, table), "'_' has no row: a literal underscore would be confused "
                       "with the delimiters of the special names")
+
+
+def m4(rep):
+    """One predicate decides "the unit is split" (-Csmax): every comparison of the unit's statement total with the limit
+    has the same strictness."""
+    f = common.extract("genc.c", all_trees=True)
+    # the statement total: gcvNStmts and variables directly copied to/from it
+    total = {"gcvNStmts"}
+    changed = True
+    assigns = []
+    for fn in f.funcs.values():
+        if "body" not in fn or not fn.get("file", "").endswith("genc.c"):
+            continue
+        for x in walk(fn["body"]):
+            if x["k"] == "BinaryOperator" and x["op"] == "=":
+                a, b = strip(x["c"][0]), strip(x["c"][1])
+                if a is not None and b is not None and a["k"] == "DeclRefExpr" and b["k"] == "DeclRefExpr" \
+                        and a.get("dk") == "var" and b.get("dk") == "var":
+                    assigns.append((fn["n"], a["n"], b["n"]))
+    while changed:
+        changed = False
+        for fname, a, b in assigns:
+            for u, v in ((a, b), (b, a)):
+                ku = u if u.startswith("gcv") else fname + ":" + u
+                kv = v if v.startswith("gcv") else fname + ":" + v
+                if ku in total and kv not in total:
+                    total.add(kv)
+                    changed = True
+    FLIP = {"<": ">", ">": "<", "<=": ">=", ">=": "<="}
+    sites = []
+    for fn in f.funcs.values():
+        if "body" not in fn or not fn.get("file", "").endswith("genc.c"):
+            continue
+        for x in walk(fn["body"]):
+            if x["k"] == "BinaryOperator" and x["op"] in FLIP:
+                a, b = strip(x["c"][0]), strip(x["c"][1])
+                if a is None or b is None or a["k"] != "DeclRefExpr" or b["k"] != "DeclRefExpr":
+                    continue
+                ka = a["n"] if a["n"].startswith("gcv") else fn["n"] + ":" + a["n"]
+                kb = b["n"] if b["n"].startswith("gcv") else fn["n"] + ":" + b["n"]
+                if ka in total and b["n"] == "gcvSMax":
+                    sites.append((fn["n"], x["l"], x["op"], a["n"], x.get("mac")))
+                elif kb in total and a["n"] == "gcvSMax":
+                    sites.append((fn["n"], x["l"], FLIP[x["op"]], b["n"], x.get("mac")))
+    rep.floor("comparisons of the statement total with the -Csmax limit", len(sites), 15)
+    ops = {}
+    for s_ in sites:
+        ops[s_[2]] = ops.get(s_[2], 0) + 1
+    major = max(ops, key=lambda o: ops[o])
+    seen = set()
+    for fname, line, op, var, mac in sorted(sites, key=lambda t: t[1]):
+        key = "split-predicate:%s:%s@%d" % (fname, var, line)
+        if op == major:
+            if (fname, mac) not in seen:
+                rep.ok("M4", key, sample={"site": "genc.c:%d" % line, "test": "%s %s gcvSMax" % (var, op)} if not seen else None)
+            seen.add((fname, mac))
+        else:
+            rep.violation("M4", key, "genc.c:%d (%s)" % (line, fname),
+                          "the unit's statement total is compared with the -Csmax limit as `%s %s gcvSMax` here but as `%s gcvSMax` at the "
+                          "other %d sites (gc0OverSMax): when the total equals the limit one part of the generator splits the unit "
+                          "into several files and the rest treats it as a single file, and the C does not compile"
+                          % (var, op, major, ops[major]))
 
 
 def run(tier, only=None):
@@ -113,6 +178,7 @@ def run(tier, only=None):
             rep.ok("M3", "init-loop", sample={"loop_top": top, "bound": bound})
     if not checked:
         raise AnalysisBroken("gc0InitSpecialChars: table initialisation loop not recognised")
+    m4(rep)
     mx = max(ch for ch, _, _ in rows if ch is not None)
     if mx >= bound:
         rep.violation("M3", "table-chars", "genc.c (ccSpecCharIdTable)", "character %d indexes tables of %d elements" % (mx, bound))
